@@ -216,6 +216,7 @@ type c16State struct {
 	dumpMid    []byte
 	pRT        *bcl.Prog
 	dumpRT     []byte
+	pOne, pNeg *bcl.Prog
 }
 
 // take returns what was written to b since the last take.
@@ -299,6 +300,17 @@ var c16Calls = []struct {
 		take(st.outA)
 		return impl.Ran{Blocks: bl, Binding: bi, Err: err, Log: take(st.logA)}.Summary() + fmt.Sprintf(" loaderr=%v dump-unchanged=%v", lerr, bytes.Equal(d, st.dumpRT))
 	}},
+	// a one-token Prog without a trailing newline, traced (its first instruction sits where the listing ended)
+	{"Execute(pOne,trace)", func(st *c16State) string {
+		var out2 bytes.Buffer
+		bl, bi, err := bcl.Execute(st.pOne, bcl.OptTrace(true), bcl.OptOutput(&out2))
+		return impl.Ran{Blocks: bl, Binding: bi, Err: err, Out: take(st.outA), Log: take(st.logA)}.Summary() + fmt.Sprintf(" out2=%q", out2.String())
+	}},
+	{"Execute(pNeg,disasm+trace)", func(st *c16State) string {
+		var out2 bytes.Buffer
+		bl, bi, err := bcl.Execute(st.pNeg, bcl.OptTrace(true), bcl.OptDisasm(true), bcl.OptOutput(&out2))
+		return impl.Ran{Blocks: bl, Binding: bi, Err: err, Out: take(st.outA), Log: take(st.logA)}.Summary() + fmt.Sprintf(" out2=%q", out2.String())
+	}},
 	{"Execute(pA,stats)", func(st *c16State) string {
 		var out2 bytes.Buffer
 		bl, bi, err := bcl.Execute(st.pA, bcl.OptOutput(&out2), bcl.OptStats(true))
@@ -355,6 +367,9 @@ func newC16State() *c16State {
 	st.dumpMid, _ = impl.Dump(st.pMid)
 	st.pRT, _ = bcl.Parse([]byte(c16SrcRT2), "input", bcl.OptOutput(st.outA), bcl.OptLogger(st.logA))
 	st.dumpRT, _ = impl.Dump(st.pRT)
+	st.pOne, _ = bcl.Parse([]byte("print 1"), "input", bcl.OptOutput(st.outA), bcl.OptLogger(st.logA), bcl.OptDisasm(true))
+	st.pNeg, _ = bcl.Parse([]byte("print -nil"), "input", bcl.OptOutput(st.outA), bcl.OptLogger(st.logA))
+	take(st.outA)
 	return st
 }
 
@@ -499,6 +514,61 @@ var subC16Fresh = &fw.Sub{Name: "c16.fresh-history", New: func() fw.Case { retur
 	return nil
 }}
 
+// c16.callerslices: a call is given opts[:k]... of a slice that has spare capacity; the slots beyond k belong to the
+// caller (they hold nil here) and must still hold nil afterwards, and the k options given must have had their effect.
+type c16Slices struct {
+	API string `json:"api"`
+}
+
+func (c *c16Slices) Key() string { return c.API }
+
+var subC16Slices = &fw.Sub{Name: "c16.callerslices", New: func() fw.Case { return &c16Slices{} }, Exec: func(cs fw.Case) *fw.Fail {
+	c := cs.(*c16Slices)
+	return fw.Guard(func() *fw.Fail {
+		var out, log bytes.Buffer
+		list := make([]bcl.Option, 6)
+		list[0], list[1] = bcl.OptOutput(&out), bcl.OptLogger(&log)
+		src := "def c11target { x = 1 }\nbind c11target -> struct"
+		dump, _ := dumpOf(src)
+		for k := 0; k <= 2; k++ {
+			opts := list[:k]
+			switch c.API {
+			case "Parse":
+				bcl.Parse([]byte(src), "n", opts...)
+			case "ParseFile":
+				bcl.ParseFile(impl.NewScriptFile(src, nil), opts...)
+			case "Interpret":
+				bcl.Interpret([]byte(src), opts...)
+			case "InterpretFile":
+				bcl.InterpretFile(impl.NewScriptFile(src, nil), opts...)
+			case "Unmarshal":
+				var t c11Target
+				bcl.Unmarshal([]byte(src), &t, opts...)
+			case "UnmarshalFile":
+				var t c11Target
+				bcl.UnmarshalFile(impl.NewScriptFile(src, nil), &t, opts...)
+			case "LoadProg":
+				bcl.LoadProg(bytes.NewReader(dump), "n", opts...)
+			case "Execute":
+				if p, err := bcl.Parse([]byte(src), "n", bcl.OptOutput(&out), bcl.OptLogger(&log)); err == nil {
+					bcl.Execute(p, opts...)
+				}
+			}
+			for i := k; i < len(list); i++ {
+				if i >= 2 && list[i] != nil {
+					return fw.Failf(fmt.Sprintf("%s(opts[:%d]...) leaves the caller's slice alone beyond the %d options given", c.API, k, k), "slot %d of the caller's slice was overwritten", i)
+				}
+			}
+			if list[0] == nil || list[1] == nil {
+				return fw.Failf("the options given stay in place", "slot 0 or 1 was cleared")
+			}
+		}
+		fw.TallyOutcome("caller-slices-untouched")
+		fw.TallyNontrivial()
+		return nil
+	})
+}}
+
 func init() {
 	fw.Commands["c16-rec"] = func(args []string) int {
 		first := 0
@@ -517,16 +587,19 @@ func init() {
 		Level: "model_checking",
 		Rule: "(a) every map iteration order (explored exhaustively through the map-order choice point of the rewritten package) of every range-over-map executed by Bind, for the binding x target space of C15 and for Unmarshal of programs whose keys collide on one field, hold several faulty fields, or hold several named inner blocks: target and error text must be identical for all orders; " +
 			"(b) every goroutine schedule with <=B preemptions (quick 1, thorough 2) of Parse, ParseFile (3 chunks) and Interpret on corpus inputs (valid, several diagnostics, lexical failure): dump bytes, diagnostics, output, blocks, binding identical on all schedules; " +
-			"(c) every history of <=L calls (quick 3, thorough 4) over a 22-call alphabet (a result with empty blocks whose maps the caller then writes to, ParseFile with a data+error read, a Prog re-loaded in place from its own dump and executed, a second shared Prog with ~3 kB of code executed and dumped, another mid-size compilation, Parse of 3 inputs, Interpret, Execute/Dump of one shared Prog, LoadProg+Execute, Unmarshal good/bad, InterpretFile, Interpret with all options, a deep-stack/deep-nesting program, statistics of a shallow program and of the shared Prog): each call's result equals its result as the first call of a fresh state, and Dump(p) is unchanged by Execute(p); histories that start in a fresh process (each of three same-named struct types bound first) must give the same Bind outcome table; " +
+			"(c) every history of <=L calls (quick 3, thorough 4) over a 24-call alphabet (one-token Progs executed with trace, a result with empty blocks whose maps the caller then writes to, ParseFile with a data+error read, a Prog re-loaded in place from its own dump and executed, a second shared Prog with ~3 kB of code executed and dumped, another mid-size compilation, Parse of 3 inputs, Interpret, Execute/Dump of one shared Prog, LoadProg+Execute, Unmarshal good/bad, InterpretFile, Interpret with all options, a deep-stack/deep-nesting program, statistics of a shallow program and of the shared Prog): each call's result equals its result as the first call of a fresh state, and Dump(p) is unchanged by Execute(p); histories that start in a fresh process (each of three same-named struct types bound first) must give the same Bind outcome table; " +
 			"(d) supplementary (sampling): a digest over all first-call results from fresh processes with GOMAXPROCS 1/2/16 (different hash seeds) must be identical.",
-		Subs:           []*fw.Sub{subC16Map, subC16Unm, subC16Sched, subC16Hist, subC16Fresh},
+		Subs:           []*fw.Sub{subC16Map, subC16Unm, subC16Sched, subC16Hist, subC16Fresh, subC16Slices},
 		BudgetQuick:    100,
 		BudgetThorough: 1500,
 		Assumptions: []string{"hash seeds are observable only through map iteration order and CPU counts only through scheduling; both are enumerated instead of sampled",
-			"histories are limited to the 22-call alphabet"},
+			"histories are limited to the 24-call alphabet"},
 		Run: func(c *fw.Ctx) {
 			for first := range c15RecTargets {
 				c.Do(subC16Fresh, &c16FreshCase{First: first})
+			}
+			for _, api := range []string{"Parse", "ParseFile", "Interpret", "InterpretFile", "Unmarshal", "UnmarshalFile", "LoadProg", "Execute"} {
+				c.Do(subC16Slices, &c16Slices{API: api})
 			}
 			// (c) histories
 			L := 3
@@ -584,6 +657,12 @@ func init() {
 			}
 			// several diagnostics on several lines, the input cut at every offset: which line ends the lexer
 			// has already seen when the parser formats a position depends on the schedule only
+			// a block that closes a few tokens before a lexical failure (what the parser knows about the lexer's progress is timing)
+			for _, src := range []string{"def b {\n x = 1\n}\nprint 1 @\nprint 2\n", "def a { def b { x = 1 } }\n\n\"open\n", "def b { x = ) }\ndef c { }\n@"} {
+				c.Do(subC16Sched, &c16Sched{Src: src, API: "parse", Bound: bound + 1})
+				c.Do(subC16Sched, &c16Sched{Src: src, API: "parsefile", Bound: bound})
+				c.Do(subC16Sched, &c16Sched{Src: src, API: "parsefile", Bound: bound, Cut: 9})
+			}
 			for _, src := range []string{"print )\nprint )\nprint 3\nprint )\nprint )\n", "print (\n\nvar\n)\n\n\nprint )"} {
 				for cut := 1; cut < len(src); cut++ {
 					c.Do(subC16Sched, &c16Sched{Src: src, API: "parsefile", Bound: bound, Cut: cut})
